@@ -14,6 +14,8 @@ Eval vm_compute in ("cex"%string, at_init I [] (fun s0 =>
   | Some bs =>
       let t := match find (fun t => negb (outcome_eqb scres_eqb (last_of s0 t) (last_of s0 (bs ++ t)))) continuations with
                | Some t => t | None => [0x1C] end in
+      (* the offending transition itself panics: that stream is the witness *)
+      if negb (is_ret (last_of s0 bs)) then [(1 :: bs, [9], [0])] else
       [(1 :: bs ++ t, enc_sc (last_of s0 t), enc_sc (last_of s0 (bs ++ t)))]
   | None => []
   end)).
